@@ -1,4 +1,5 @@
 import Driver.RefEnum
+import Driver.PredCmd
 /-! `run` / `runfrom` lines of the `mc` sub-command. -/
 namespace Driver
 open Anysystem
@@ -71,7 +72,7 @@ def doRun (st : McSt) (ws : List String) (fromStates : Bool) : McSt × List Stri
   let isOk := res == "ok"
   let col := if isOk then col else []
   let lines := [s!"{hdr} result={res} evaluated={ev.length} collected={col.length}"]
-    ++ ev.map (fun s => "E " ++ showState s)
+    ++ ev.map (fun s => "E " ++ showState s ++ (if st.preds then " " ++ predBattery s else ""))
     ++ (col.map (fun s => "C " ++ showState s ++ " T" ++ showTrace s.trace))
     ++ (match errSt with
         | some e => ["T " ++ showState e ++ " T" ++ showTrace e.trace]
